@@ -153,6 +153,7 @@ def bi_callable(eng, args, kwargs, fr):
 
 def bi_abs(eng, args, kwargs, fr):
     (v,) = args
+    eng.taint_use("abs() of the symbolic weight", v)
     if is_num(v):
         return abs(v)
     if is_intlike(v):
@@ -164,6 +165,7 @@ def bi_abs(eng, args, kwargs, fr):
 
 def bi_float(eng, args, kwargs, fr):
     (v,) = args
+    eng.taint_use("float() of the symbolic weight", v)
     if is_num(v):
         return fractions.Fraction(v)
     if isinstance(v, str):
@@ -175,6 +177,7 @@ def bi_float(eng, args, kwargs, fr):
 
 def bi_int(eng, args, kwargs, fr):
     (v,) = args
+    eng.taint_use("int() of the symbolic weight", v)
     if isinstance(v, (int, bool)):
         return int(v)
     if isinstance(v, SV) and v.t in ("int", "bool"):
@@ -383,6 +386,7 @@ def bi_min(eng, args, kwargs, fr):
 
 
 def _minmax(eng, args, ismax):
+    eng.taint_use("max()/min() of the symbolic weight", *[a for a in args if isinstance(a, SV)])
     if len(args) == 1:
         c = eng.concrete_iter(args[0])
         if c is None:
